@@ -1,5 +1,6 @@
 use crate::fw::{Ctx, Outcome};
 
+pub mod c01;
 pub mod c02;
 pub mod c02_e2e;
 pub mod c03;
@@ -23,6 +24,7 @@ pub mod smoke;
 
 pub fn dispatch(ctx: &Ctx) -> Option<Outcome> {
     Some(match ctx.prop.as_str() {
+        "C01" => c01::run(ctx),
         "C02" => match ctx.part.as_deref() {
             Some("b") => c02_e2e::run_b(ctx),
             _ => c02::run(ctx),
